@@ -35,6 +35,9 @@ INVALID = [
     "$['\\x']", "$['\\ud800']", "$[?true]", "$[?1]", "$[?@.a == TRUE]", "$.a..", "$..[", "$[?@.a &&]", "$[?|| @.a]",
     "$[?@.a == 1 2]", "$[?(@.a) == 1]", "$[?!!@.a]", "$[?@.a == !1]", "$[1:2 3]", "$[?count(@.a,) == 1]", "$.a-b",
     "$[?@ == 1e400]", "$[?@ == -01]", "$[?@['a' ] == 1", "$[ ]",
+    "$[?(@.a 1)]", "$[?(@.a @.b)]", "$[?(@.a == 1 2)]", "$[?count((@.* 1)) == 1]", "$[?length(@.a, !@.b) == 1]",
+    "$[?match(@.a, 'x', (@.b))]", "$[?length(match(@.a, 'x')) == 1]", "$[?@['a','b'] == 1]", "$[?@.a == :1.5]",
+    "$['\\u-123']", "$[?@.a == \"\\u12\"]", "$[?count(@.a,) == 1]", "$[?!(1)]", "$[?@.a ==== 1]", "$[?@.a &&& @.b]",
 ]
 
 
